@@ -16,13 +16,18 @@
 (* for: which transaction a full pool / a full sender list evicts, whether *)
 (* a full pool evicts or rejects, whether inserting a nonce below the      *)
 (* processable run demotes the run, whether a "pending" answer promotes.   *)
-(* They are fixed where the statement is: duplicates, the minimum fee      *)
-(* priority, invalid transactions are rejected and change nothing; a       *)
-(* replacement needs fee >= old fee + MinReplacementFeeDifference and      *)
-(* removes the old transaction from every index; an accepted transaction   *)
-(* never makes a size exceed its limit; promotion extends the processable  *)
-(* run by consecutive nonces whose verification did not answer invalid and *)
-(* drops the run from the first invalid transaction on.                    *)
+(* They are fixed where the statement is: duplicates, transactions below   *)
+(* the minimum fee priority and invalid transactions are never accepted; a *)
+(* rejected call changes nothing (except that a full pool may already have *)
+(* made room before the verifier said invalid); a replacement needs        *)
+(* fee >= old fee + MinReplacementFeeDifference and removes the old        *)
+(* transaction from every index; an accepted transaction never makes a     *)
+(* size exceed its limit; promotion extends the processable run by         *)
+(* consecutive nonces whose verification did not answer invalid, and an    *)
+(* invalid answer takes the transaction (and possibly what follows it) out *)
+(* of the run.  Rejecting is always permitted: the statement is safety     *)
+(* plus termination, it never demands that a transaction is accepted or    *)
+(* that a promotion step promotes as far as it could.                      *)
 (*                                                                         *)
 (* The same operators are used by the exhaustive model below (Next) and by *)
 (* the trace monitor spec/trace/TxPoolTrace.tla (observed post-state must  *)
@@ -97,20 +102,42 @@ Put(st, t, cut) ==
    proc |-> [st.proc EXCEPT ![t.sender] = Demote(@, cut)],
    feeQ |-> Append(st.feeQ, t)]
 
+\* The victim of a full pool is left open with ONE exception (see AddSucc): the transaction that occupies the incoming
+\* transaction's own sender and nonce.  Evicting exactly that one "for capacity" and inserting the newcomer is a
+\* replacement; without the configured fee increase it is permitted only where an eviction by capacity alone would have
+\* chosen the occupant too - it is among the cheapest (lowest fee priority) transactions that are not processable or,
+\* if every pooled transaction is processable, among the cheapest last elements of the processable runs.
+Unproc(st) == ListAll(st) \ ProcTxs(st)
+LastProc(st) == UNION {At(st, s, st.proc[s][Len(st.proc[s])]) : s \in {z \in Senders : st.proc[z] # <<>>}}
+VictimClass(st) == IF Unproc(st) # {} THEN Unproc(st) ELSE LastProc(st)
+CheapestVictims(st) == {x \in VictimClass(st) : \A y \in VictimClass(st) : Prio(x) <= Prio(y)}
+\* (only where every processable run starts at its sender's lowest nonce: about other states the statement is silent, and
+\* the implementation's notion of "not processable" - beyond the |run| lowest nonces - is a different one there)
+AllRunsArePrefixes(st) == \A s \in Senders : st.proc[s] = <<>> \/ (Keys(st, s) # {} /\ st.proc[s][1] = SetMin(Keys(st, s)))
+
 PoolFull(cfg, st) == Cardinality(st.all) >= cfg.max
 SenderFull(cfg, st, s) == Cardinality(st.list[s]) >= cfg.acc
 
 (* --------------------------------- Add ----------------------------------- *)
 \* results of Add(t) when the verifier answers v: records [st, ok, out]
 \* (out = transactions that were evicted or replaced; they must be gone from every index)
+\* The statement of C14 is about what an ACCEPTED transaction may do to the indexes; it never demands acceptance.
+\* So "rejected, nothing changed" is always permitted, and a transaction that fails verification at a full pool
+\* may be rejected before or after the capacity eviction (the order of the two steps is not fixed).
 AddSucc(cfg, st, t, v) ==
-  IF t \in st.all \/ Prio(t) < cfg.minp \/ v = "invalid"
-  THEN {[st |-> st, ok |-> FALSE, out |-> {}]}
+  LET same == [st |-> st, ok |-> FALSE, out |-> {}] IN
+  IF t \in st.all \/ Prio(t) < cfg.minp
+  THEN {same}
+  ELSE IF v = "invalid"
+  THEN {same} \cup (IF PoolFull(cfg, st) THEN {[st |-> Drop(st, x), ok |-> FALSE, out |-> {x}] : x \in st.all} ELSE {})
   ELSE
     LET s == t.sender
-        \* a full pool may evict SOME pooled transaction before the sender list is consulted
+        \* a full pool may evict SOME pooled transaction before the sender list is consulted (not the occupant of
+        \* t's own nonce in order to get around the replacement rule, see CheapestVictims)
+        MayEvict(x) == x \notin At(st, s, t.nonce) \/ t.fee >= x.fee + cfg.diff \/ x \in CheapestVictims(st)
+                       \/ ~AllRunsArePrefixes(st)
         S1 == {[st |-> st, out |-> {}]} \cup
-              (IF PoolFull(cfg, st) THEN {[st |-> Drop(st, x), out |-> {x}] : x \in st.all} ELSE {})
+              (IF PoolFull(cfg, st) THEN {[st |-> Drop(st, x), out |-> {x}] : x \in {y \in st.all : MayEvict(y)}} ELSE {})
         Rejected(a) == [st |-> a.st, ok |-> FALSE, out |-> a.out]
         Step2(a) ==
           IF At(a.st, s, t.nonce) # {}
@@ -126,9 +153,15 @@ AddSucc(cfg, st, t, v) ==
                     x \in ListTxs(a.st, s), c \in {t.nonce, Inf}}
           ELSE {[st |-> Put(a.st, t, c), ok |-> TRUE, out |-> a.out] : c \in {t.nonce, Inf}}
         R == UNION {Step2(a) : a \in S1}
-    IN \* an accepted transaction never makes the pool exceed its limit; a full pool may always reject
-       {r \in R : ~r.ok \/ Cardinality(r.st.all) <= cfg.max}
-         \cup (IF PoolFull(cfg, st) THEN {[st |-> st, ok |-> FALSE, out |-> {}]} ELSE {})
+    IN \* an accepted transaction never makes the pool exceed its limit
+       {r \in R : ~r.ok \/ Cardinality(r.st.all) <= cfg.max} \cup {same}
+
+\* Add when the announcement of the accepted transaction to the network (conn.Publish) is part of the call:
+\* pubok = FALSE is the environment answer "publish failed".  The statement does not say whether the call then
+\* reports success or whether the insertion is kept; whatever the pool does, the state is one AddSucc permits.
+AddSuccPub(cfg, st, t, v, pubok) ==
+  IF pubok THEN AddSucc(cfg, st, t, v)
+  ELSE {[st |-> r.st, ok |-> b, out |-> r.out] : r \in AddSucc(cfg, st, t, v), b \in BOOLEAN}
 
 (* -------------------------------- Remove --------------------------------- *)
 RemoveSucc(st, t) ==
@@ -156,22 +189,40 @@ RunTxs(st, s) == {TxAt(st, s, Run(st, s)[i]) : i \in 1..Len(Run(st, s))}
 IsPrefixState(st, s) == st.proc[s] = <<>> \/ st.proc[s][1] = LowestKey(st, s)
 
 \* one promotion step for sender s; ans maps the transactions of the run to verifier answers.
-\* The verifier is consulted in nonce order and stops at the first invalid answer.
+\* The verifier is consulted in nonce order and stops at the first invalid answer (position f of the run).
+\* Fixed by the statement: only transactions that were asked and not answered invalid become processable, the
+\* result is a run, an already processable transaction that is now answered invalid does not stay processable.
+\* Left open (the statement is silent): how far one step promotes (m: any length between the present run and f - 1,
+\* promotion may be batched over several steps) and how much of the run from the invalid transaction on is dropped
+\* (D: the invalid transaction with any part of what follows it; nothing at all when the invalid transaction was
+\* not processable yet).
 ReorgSenderSucc(st, s, ans) ==
   LET pr    == Promotable(st, s)
       run   == st.proc[s] \o pr
       inval == {i \in 1..Len(run) : ans[TxAt(st, s, run[i])] = "invalid"}
       f     == IF inval = {} THEN Len(run) + 1 ELSE SetMin(inval)
       pend  == \E i \in 1..(f - 1) : ans[TxAt(st, s, run[i])] = "pending"
-      out   == {TxAt(st, s, run[i]) : i \in f..Len(run)}
-      prom  == [st EXCEPT !.proc[s] = SubSeq(run, 1, f - 1)]
-      res   == [st |-> DropSet(prom, out), out |-> out,
-                passed |-> {TxAt(st, s, run[i]) : i \in 1..(f - 1)}]
+      bad   == IF inval = {} THEN {} ELSE {TxAt(st, s, run[f])}
+      rest  == {TxAt(st, s, run[i]) : i \in (f + 1)..Len(run)}
+      lo    == IF Len(st.proc[s]) < f - 1 THEN Len(st.proc[s]) ELSE f - 1
+      Ds    == {bad \cup X : X \in SUBSET rest} \cup (IF f > Len(st.proc[s]) THEN {{}} ELSE {})
+      res(m, D) == [st |-> DropSet([st EXCEPT !.proc[s] = SubSeq(run, 1, m)], D), out |-> D,
+                    passed |-> {TxAt(st, s, run[i]) : i \in 1..m}]
       same  == [st |-> st, out |-> {}, passed |-> {}]
   IN IF pr = <<>> THEN {same}
-     ELSE {res}
+     ELSE {res(m, D) : m \in lo..(f - 1), D \in Ds}
           \cup (IF pend THEN {same} ELSE {})                   \* "pending: keep as it is" is permitted
           \cup (IF ~IsPrefixState(st, s) THEN {same} ELSE {})  \* statement silent about such runs
+
+\* the step the implementation takes today (maximal promotion, the whole run from the invalid transaction on is
+\* dropped): used for coverage notes only
+ReorgSenderFull(st, s, ans) ==
+  LET pr    == Promotable(st, s)
+      run   == st.proc[s] \o pr
+      inval == {i \in 1..Len(run) : ans[TxAt(st, s, run[i])] = "invalid"}
+      f     == IF inval = {} THEN Len(run) + 1 ELSE SetMin(inval)
+      out   == {TxAt(st, s, run[i]) : i \in f..Len(run)}
+  IN IF pr = <<>> THEN st ELSE DropSet([st EXCEPT !.proc[s] = SubSeq(run, 1, f - 1)], out)
 
 (***************************************************************************)
 (* Exhaustive model: every interleaving of the public calls over a small   *)
@@ -186,6 +237,8 @@ SetSt(r) == all' = r.all /\ list' = r.list /\ proc' = r.proc /\ feeQ' = r.feeQ
 
 Init == all = {} /\ list = Empty.list /\ proc = Empty.proc /\ feeQ = <<>> /\ passed = {} /\ gone = {}
 
+\* (AddSuccPub with a failed publish yields the same states as AddSucc, only the reported result differs, and the
+\* result is not part of the model's state: AddSucc covers both environment answers here)
 AddTx(t) == \E v \in Verdicts : \E r \in AddSucc(Cfg, St, t, v) :
             SetSt(r.st) /\ gone' = r.out /\ passed' = passed \cap ProcTxs(r.st)
 RemoveTx(t) == \E r \in RemoveSucc(St, t) :
